@@ -540,8 +540,12 @@ def run_replay(d, timeout=600):
     env = dict(os.environ)
     env['VERIF_REPO_ROOT'] = REPO_ROOT
     env['PYTHONPATH'] = REPO_ROOT
+    py = '/venv/bin/python'
+    if os.path.exists(os.path.join(d, 'python')):
+        py = open(os.path.join(d, 'python')).read().strip()     # replays that need the machinery's own interpreter
+        env['PYTHONPATH'] = REPO_ROOT + ':' + VERIF
     try:
-        p = subprocess.run(['/venv/bin/python', os.path.join(d, 'replay.py')], cwd=d, env=env,
+        p = subprocess.run([py, os.path.join(d, 'replay.py')], cwd=d, env=env,
                            capture_output=True, text=True, timeout=timeout)
     except subprocess.TimeoutExpired:
         return 'error', 'replay timed out'
